@@ -22,7 +22,7 @@ def run(ctx):
     rng = random.Random(ctx["seed"])
     quick = ctx["tier"] == "quick"
     res = vlib.Result()
-    res.rule = ("(a) every (prefix cut of a refname, refname) pair over a pool of 26 names, and generated regexp ASTs x names "
+    res.rule = ("(a) every (prefix cut of a refname, refname) pair over a pool of 29 names, and generated regexp ASTs x names "
                 "through git.PrefixFilter/RegexpFilter; (b) CLI --show-refs with generated option sequences (flags, PREFIX, "
                 "/REGEXP/, --include-regexp, @group, --refgroup) x reference sets x refgroup configs, plus an exhaustive "
                 "enumeration of option sequences of length <= %d over a pool of 8 options; non-trivial = distinct request"
